@@ -1,13 +1,6 @@
 ; Whole-statement specification (C05, C06, C13): the scope built from parameters and let statements,
 ; and the text of the single SQL statement that is emitted.
-(module-uses consts height spanof expr plan joincond view split)
-
-; statements the parser may return on success (Appendix D)
-(define-fun stmtWF ((s Str) (st Node)) Bool
-  (or (and (tabWF s st) (spanSafe st)) (and ((_ is mk_LetStatement) st) ((_ is mk_Ident) (LetStatement.Name st)) (exprWF (LetStatement.X st)))))
-(define-fun-rec stmtsWF ((s Str) (l Seq_Node) (n Int)) Bool
-  (ite (<= n 0) true (and (stmtsWF s l (- n 1)) (stmtWF s (Seq_Node.nth l (- n 1))))))
-(lemma stmtsWF-nth :induction n (forall ((s Str) (l Seq_Node) (n Int) (i Int)) (! (=> (and (stmtsWF s l n) (<= 0 i) (< i n)) (stmtWF s (Seq_Node.nth l i))) :pattern ((stmtsWF s l n) (Seq_Node.nth l i)))))
+(module-uses consts height spanof expr plan joincond view tabwf split)
 
 ; is there a tabular statement among the first k?
 (define-fun-rec QB ((l Seq_Node) (k Int)) Bool
